@@ -31,7 +31,7 @@ def effective(data, script):
     PAGE = read_page()
     out = []
     for kind, n in script:
-        if kind == "x":
+        if kind in ("x", "w"):
             out.append(("x", b""))
             return out
         if kind == "e":
@@ -69,7 +69,7 @@ def gen_script(rng, n):
         elif k < 0.87:
             s.append(["D", rng.choice([1, 5, 50])])
         elif k < 0.94:
-            s.append(["x", 0])
+            s.append([rng.choice(["x", "x", "w"]), 0])
         else:
             s.append(["e", 0])
     return s
@@ -172,7 +172,7 @@ def probe_race(ctx, suite, cases, tag):
             f.write(json.dumps(c) + "\n")
     data = open(path, "rb").read()
     p = subprocess.run([os.path.join(BUILD, "bclprobe-race"), suite], input=data, stdout=subprocess.PIPE,
-                       stderr=subprocess.PIPE, timeout=3000, env=dict(os.environ, GORACE="halt_on_error=0 history_size=2", VERIF_WATCHDOG_S="300"))
+                       stderr=subprocess.PIPE, timeout=3000, env=dict(os.environ, GORACE="halt_on_error=0 history_size=2", VERIF_WATCHDOG_S="300", VERIF_MEM_LIMIT_MB="24000"))
     res = {}
     for line in p.stdout.decode("utf8", "replace").splitlines():
         if line.startswith("{"):
@@ -201,6 +201,10 @@ def check_C12(ctx):
     for name, data in inputs.items():
         for j, sc in enumerate([[["d", 7]] * 4000, [["d", 1]] * 3000, [["d", 50], ["z", 0]] * 500, [], [["d", 4096]] * 3]):
             cases.append(dict(id="%s/%d" % (name, j), src_hex=data.hex(), script=sc, api="parse", delay_us=0))
+        # a read error while diagnostics of earlier pages are still being written: everything must have stopped on return
+        for j, sc in enumerate([[["d", 4096]] * 2 + [["x", 0]], [["d", 7]] * 300 + [["x", 0]], [["d", 600]] * 5 + [["w", 0]]]):
+            for api in ("parse", "interpret"):
+                cases.append(dict(id="%s/rderr%d/%s" % (name, j, api), src_hex=data.hex(), script=sc, api=api, delay_us=0))
     res, races, rc = probe_race(ctx, "proto", cases, "race_proto")
     for c in cases:
         ctx.count(1, casehash(c["src_hex"], json.dumps(c["script"][:3]), str(len(c["script"]))))
